@@ -1,8 +1,74 @@
-(* Correspondence for C12: as Corr_C05, with faults armed in some updates (every file
-   class an update writes, each shard file, the reload request and the reload result of an
-   inline reload through the master socket of an external haproxy) and the reload queue
-   emulated the way services.reloadHAProxy drives it.  Observed per step: the error, the
-   files, whether the running (fake) haproxy loaded exactly the files now on disk. *)
+(* Correspondence for C12.
+   (a) instance level (CInst): as Corr_C05, with faults armed in some updates (every file class
+   an update writes, each shard file, the reload request / result / connection reset of an
+   inline reload through the master socket of an external haproxy), restarts, and the reload
+   queue emulated the way services.reloadHAProxy drives it.  Observed per step: the error, the
+   files, whether the running (fake) haproxy loaded exactly the files now on disk; compared
+   with Model/ConfigSM(_Faults) fed the same calls (Corr_ConfigSM.replay).
+   (b) retry-loop level (CLoop): the harness drives the REAL watchers, the real
+   IngressReconciler.Reconcile and Services.ReconcileIngress (hooks verif_c12.go) over the real
+   converters and instance, with a work queue that does what client-go's does with the results
+   (set of rparam items, ready / delayed), cluster changes delivered through the real event
+   handlers, and write faults planted during some attempts.  Observed per event: the
+   rparam{fullsync} each handler enqueued (input of the model), for an attempt the error of
+   HAProxyUpdate and whether Reconcile asked for RequeueAfter, then the content of the queue,
+   and - after a successful attempt - whether the files mean the same (cfgnorm normal form) as
+   those of a twin controller that ran the same reconciliations without any fault.  Compared
+   with the queue side of Model/RetryLoop.v (q_change, q_tick, q_attempt ...): the attempt must
+   be enabled, requeue = error, same queue content; and the model's claims: after a successful
+   attempt, and whenever nothing is pending, the files are those of the fault-free twin. *)
 From HI Require Export Corr.Corr_ConfigSM.
+From HI Require Export Model.RetryLoop.
 
-Definition mismatches (cs : list hcase) : list N := Corr_ConfigSM.mismatches cs.
+Inductive aev :=
+| AChange (full : bool)
+| ALeader
+| ATick (full : bool)
+| AAttempt (full : bool) (err : bool) (requeue : bool).
+
+Record lobs := {
+  ob_rp : bool; ob_rf : bool;     (* ready: rparam{false}, rparam{true} *)
+  ob_dp : bool; ob_df : bool;     (* delayed *)
+  ob_same : option bool           (* files mean the same as the fault-free twin's (when compared) *)
+}.
+Record lcase := { lc_id : N; lc_evs : list (aev * lobs) }.
+
+Record lstate := { ls_q : lqueue; ls_failed : bool; ls_attempted : bool }.
+Definition ls_init : lstate := {| ls_q := lqueue_init; ls_failed := false; ls_attempted := false |}.
+
+Definition lobs_ok (s : lstate) (o : lobs) : bool :=
+  Bool.eqb (r_part (q_ready (ls_q s))) (ob_rp o) && Bool.eqb (r_full (q_ready (ls_q s))) (ob_rf o) &&
+  Bool.eqb (r_part (q_delay (ls_q s))) (ob_dp o) && Bool.eqb (r_full (q_delay (ls_q s))) (ob_df o) &&
+  match ob_same o with
+  | Some b => ls_failed s || b      (* last update succeeded => same as the twin *)
+  | None => true
+  end.
+
+Fixpoint lreplay (s : lstate) (l : list (aev * lobs)) : bool :=
+  match l with
+  | [] =>
+    (* nothing pending and no change waiting => the last attempt succeeded (or none was made) *)
+    q_pending (ls_q s) || q_wch (ls_q s) || negb (ls_failed s)
+  | (ev, o) :: l' =>
+    let '(ok, s') :=
+      match ev with
+      | AChange full => (true, {| ls_q := q_change (ls_q s) full; ls_failed := ls_failed s; ls_attempted := ls_attempted s |})
+      | ALeader => (true, {| ls_q := q_leader (ls_q s); ls_failed := ls_failed s; ls_attempted := ls_attempted s |})
+      | ATick full => (rset_mem (q_delay (ls_q s)) full,
+                       {| ls_q := q_tick (ls_q s) full; ls_failed := ls_failed s; ls_attempted := ls_attempted s |})
+      | AAttempt full err requeue =>
+        (rset_mem (q_ready (ls_q s)) full && Bool.eqb err requeue,
+         {| ls_q := q_attempt (ls_q s) full err; ls_failed := err; ls_attempted := true |})
+      end in
+    ok && lobs_ok s' o &&
+    (* when the model says nothing is pending, the comparison must have been made and hold *)
+    (q_pending (ls_q s') || q_wch (ls_q s') || negb (ls_attempted s') ||
+     match ob_same o with Some true => true | _ => false end) &&
+    lreplay s' l'
+  end.
+
+Inductive c12case := CInst (c : hcase) | CLoop (c : lcase).
+Definition c12_id (c : c12case) : N := match c with CInst c => h_id c | CLoop c => lc_id c end.
+Definition c12_ok (c : c12case) : bool :=
+  match c with CInst c => case_ok true c | CLoop c => lreplay ls_init (lc_evs c) end.
+Definition mismatches (cs : list c12case) : list N := map c12_id (filter (fun c => negb (c12_ok c)) cs).
